@@ -26,7 +26,7 @@ theorem allR_one (P : UInt8 → Bool) (buf : Buf) (i : Nat) (c : UInt8) (h : buf
 theorem allR_empty (P : UInt8 → Bool) (buf : Buf) (i e : Nat) (h : e ≤ i) : AllR P buf i e := by
   intro k _ a b; omega
 
-theorem skipWs_allR (P : UInt8 → Bool) (hws : ∀ b : UInt8, isWs b = true → P b = true) (hdig : ∀ b : UInt8, isDigit b = true → P b = true) (buf : Buf) (i : Nat) :
+theorem skipWs_allR (P : UInt8 → Bool) (hws : ∀ b : UInt8, isWs b = true → P b = true) (buf : Buf) (i : Nat) :
     AllR P buf i (skipWs buf i) := by
   fun_induction skipWs buf i
   · rename_i i hlt hw ih
@@ -39,7 +39,7 @@ theorem skipWs_allR (P : UInt8 → Bool) (hws : ∀ b : UInt8, isWs b = true →
   · rename_i i hlt
     intro k _ a b; omega
 
-theorem skipDigits_allR (P : UInt8 → Bool) (hws : ∀ b : UInt8, isWs b = true → P b = true) (hdig : ∀ b : UInt8, isDigit b = true → P b = true) (buf : Buf) (i : Nat) :
+theorem skipDigits_allR (P : UInt8 → Bool) (hdig : ∀ b : UInt8, isDigit b = true → P b = true) (buf : Buf) (i : Nat) :
     AllR P buf i (skipDigits buf i) := by
   fun_induction skipDigits buf i
   · rename_i i hlt hw ih
@@ -68,7 +68,7 @@ theorem litAt_allR (P : UInt8 → Bool) (buf : Buf) : ∀ (bs : List UInt8) (i e
     · simp [hb] at h
 
 /-- a number token consists of plain bytes -/
-theorem number_allR (P : UInt8 → Bool) (hws : ∀ b : UInt8, isWs b = true → P b = true) (hdig : ∀ b : UInt8, isDigit b = true → P b = true)
+theorem number_allR (P : UInt8 → Bool) (hdig : ∀ b : UInt8, isDigit b = true → P b = true)
     (hminus : P 45 = true) (hdot : P 46 = true) (hplus : P 43 = true) (he1 : P 101 = true) (he2 : P 69 = true) (buf : Buf) (i e : Nat)
     (h : number buf i = some e) : AllR P buf i e := by
   -- the exponent part
@@ -98,7 +98,7 @@ theorem number_allR (P : UInt8 → Bool) (hws : ∀ b : UInt8, isWs b = true →
             | none => simp [hc] at hd
             | some c => simp only [hc] at hd; exact allR_one _ _ (a+2) c hc (hdig c hd)
           exact allR_trans _ _ a (a+1) _ hEp (allR_trans _ _ (a+1) (a+2) _ hSp
-            (allR_trans _ _ (a+2) (a+2+1) _ hdp (skipDigits_allR _ hws hdig buf (a+2+1))))
+            (allR_trans _ _ (a+2) (a+2+1) _ hdp (skipDigits_allR _ hdig buf (a+2+1))))
         · simp [hd] at hx
       · simp only [hS, Bool.false_eq_true, if_false] at hx
         by_cases hd : isDigitAt buf (a+1) = true
@@ -109,7 +109,7 @@ theorem number_allR (P : UInt8 → Bool) (hws : ∀ b : UInt8, isWs b = true →
             cases hc : buf[a+1]? with
             | none => simp [hc] at hd
             | some c => simp only [hc] at hd; exact allR_one _ _ (a+1) c hc (hdig c hd)
-          exact allR_trans _ _ a (a+1) _ hEp (allR_trans _ _ (a+1) (a+1+1) _ hdp (skipDigits_allR _ hws hdig buf (a+1+1)))
+          exact allR_trans _ _ a (a+1) _ hEp (allR_trans _ _ (a+1) (a+1+1) _ hdp (skipDigits_allR _ hdig buf (a+1+1)))
         · simp [hd] at hx
     · simp only [hE, Bool.false_eq_true, if_false, Option.some.injEq] at hx
       subst hx; exact allR_empty _ _ _ _ (Nat.le_refl _)
@@ -128,7 +128,7 @@ theorem number_allR (P : UInt8 → Bool) (hws : ∀ b : UInt8, isWs b = true →
           | none => simp [hc] at hd
           | some c => simp only [hc] at hd; exact allR_one _ _ (a+1) c hc (hdig c hd)
         exact allR_trans _ _ a (a+1) _ (allR_one _ _ a 46 hD hdot)
-          (allR_trans _ _ (a+1) (a+2) _ hdp (skipDigits_allR _ hws hdig buf (a+2)))
+          (allR_trans _ _ (a+1) (a+2) _ hdp (skipDigits_allR _ hdig buf (a+2)))
       · simp [hd] at hx
     · simp only [hD, if_false, Option.some.injEq] at hx
       subst hx; exact allR_empty _ _ _ _ (Nat.le_refl _)
@@ -152,7 +152,7 @@ theorem number_allR (P : UInt8 → Bool) (hws : ∀ b : UInt8, isWs b = true →
       have hint : AllR P buf (i1+1) (if (c == 48) = true then i1 + 1 else skipDigits buf (i1 + 1)) := by
         by_cases hz : (c == 48) = true
         · simp only [hz, if_true]; exact allR_empty _ _ _ _ (Nat.le_refl _)
-        · simp only [hz, Bool.false_eq_true, if_false]; exact skipDigits_allR _ hws hdig buf (i1+1)
+        · simp only [hz, Bool.false_eq_true, if_false]; exact skipDigits_allR _ hdig buf (i1+1)
       generalize (if (c == 48) = true then i1 + 1 else skipDigits buf (i1 + 1)) = i2 at h hint
       by_cases hbad : (c == 48 && isDigitAt buf i2) = true
       · simp [hbad] at h
